@@ -242,6 +242,8 @@ func (m *MethodMocker) ExportMethod(name string) UnExportedMocker {
 // 方法的参数签名写法比如: func(s *Struct, arg1, arg2 type), 其中第一个参数必须是接收体类型
 func (m *MethodMocker) Apply(callback interface{}) {
 	m.doApply(callback)
+	// Apply 会覆盖之前设定的 When 条件和 Return: 丢弃旧的 When, 之后的 When/Return 会重新构建并应用
+	m.when = nil
 }
 
 func (m *MethodMocker) doApply(imp interface{}) {
@@ -385,6 +387,8 @@ func (m *UnexportedMethodMocker) Apply(callback interface{}) {
 
 	callback, _ = interceptDebugInfo(callback, nil, m)
 	m.applyByName(name, callback)
+	// Apply 会覆盖之前设定的 When 条件和 Return: 丢弃旧的 When, 之后的 When/Return 会重新构建并应用
+	m.when = nil
 	logger.Consolefc(logger.DebugLevel, "mocker [%s] apply.", logger.Caller(5), m.String())
 }
 
@@ -449,6 +453,8 @@ func (m *UnexportedFuncMocker) objName() string {
 func (m *UnexportedFuncMocker) Apply(callback interface{}) {
 	callback, _ = interceptDebugInfo(callback, nil, m)
 	m.applyByName(m.objName(), callback)
+	// Apply 会覆盖之前设定的 When 条件和 Return: 丢弃旧的 When, 之后的 When/Return 会重新构建并应用
+	m.when = nil
 	logger.Consolefc(logger.DebugLevel, "mocker [%s] apply.", logger.Caller(5), m.String())
 }
 
@@ -496,6 +502,8 @@ func NewDefMocker(pkgName string, funcDef interface{}) *DefMocker {
 // Apply 代理方法实现
 func (m *DefMocker) Apply(callback interface{}) {
 	m.doApply(callback)
+	// Apply 会覆盖之前设定的 When 条件和 Return: 丢弃旧的 When, 之后的 When/Return 会重新构建并应用
+	m.when = nil
 }
 
 func (m *DefMocker) doApply(imp interface{}) {
